@@ -149,6 +149,16 @@ def run(ctx: Context) -> None:
                     others_ok, bad = False, node
         has_none_exit = any((kind == 'fall') or (kind == 'return' and not any(node is r for r, _ in items))
                             for kind, node in cfg.exits())
+        # a None exit is taken only when the query found nothing (no short cut before or beside the query)
+        from .common import known_empty
+        early = []
+        for kind, node in cfg.exits():
+            if kind == 'return' and not any(node is r for r, _ in items):
+                ke = known_empty(fi, node, flow, lambda e: derives_from_query(ctx, fi, e, queries))
+                if ke is not True:
+                    early.append(node)
+        ctx.check('R04.4', not early, "None is returned only when the hit set is known to be empty (no pre-check that can reject a point on a cell outline)", fi,
+                  early[0] if early else fi.node, construct=f"None exits not implied by an empty hit set: {[norm_text(e) + ' @' + str(e.lineno // 1000) for e in early] or 'none'}")
         ctx.check('R04.4', others_ok and has_none_exit, "every exit other than the item returns None (no fallback cell)", fi,
                   bad if bad is not None else fi.node,
                   construct='miss exit: ' + (norm_text(bad) if bad is not None else ('return None' if has_none_exit else 'absent')))
@@ -214,6 +224,7 @@ VARIANTS = [
     V('C04', 'needs-two-hits', _B, "        if len(hits) > 0:\n            linear_index = hits[0]", "        if len(hits) > 1:\n            linear_index = hits[0]", 'R04.4'),
     V('C04', 'nearest-fallback', _B, "                polygon=self.polygons[linear_index])\n        return None",
       "                polygon=self.polygons[linear_index])\n        linear_index = self.strtree.nearest(point)\n        return SpatialIndexItem(linear_index, self.wind_index(linear_index), self.polygons[linear_index])", ('R04.1', 'R04.4')),
+    V('C04', 'bounds-precheck', _B, "        hits = numpy.sort(self.strtree.query(point, predicate='intersects'))", "        if not shapely.box(*self.bounds).contains(point):\n            return None\n        hits = numpy.sort(self.strtree.query(point, predicate='intersects'))", 'R04.4'),
     V('C04', 'tree-over-compacted', _B, "        return STRtree(self.polygons)", "        return STRtree(self.polygons[self.mask])", 'R04.5'),
     V('C04', 'select-point-no-raise', _B, "        if index is None:\n            raise ValueError(\"Point did not intersect dataset\")\n", "", 'R04.6'),
     # benign
